@@ -87,6 +87,9 @@ pub(super) fn do_the_pop(
             for i in 0..n {
                 let mut op = operands.get_coord(i);
                 op[3 - j] = f64::NAN;
+                // Containers of lower dimension do not store the element just
+                // marked, so we also mark the first one, which they all store
+                op[0] = f64::NAN;
                 operands.set_coord(i, &op);
             }
             warn!("Stack underflow in pipeline");
